@@ -521,6 +521,13 @@ def _gen_values(thorough):
     # braces around something that is not a variable name are text, like any other brace - and the variables around them are still variables
     yield "{{ user.name }} has {{ name }} items", [("lit", "{{ user.name }} has "), ("var", "name"), ("lit", " items")]
     yield "write {{ in mustache then hello {{ name }}", [("lit", "write {{ in mustache then hello "), ("var", "name")]
+    # a reference inside a component is a component around a reference (the construct that starts first is the outer one)
+    yield "<b>$t(target)</b>", [("open", "b"), ("ref", "target"), ("close", "b")]
+    yield "see <b>the $t(a.b) here</b> now {{ name }}", [("lit", "see "), ("open", "b"), ("lit", "the "), ("ref", "a.b"), ("lit", " here"), ("close", "b"), ("lit", " now "), ("var", "name")]
+    yield "$t(first) then <b>x</b>", [("ref", "first"), ("lit", " then "), ("open", "b"), ("lit", "x"), ("close", "b")]
+    # the first closing tag at depth 0 closes the component; a stray later one is text
+    yield "<b>x</b> and </b>", [("open", "b"), ("lit", "x"), ("close", "b"), ("lit", " and </b>")]
+    yield "<b>a<b>c</b>d</b> e </b>", [("open", "b"), ("lit", "a"), ("open", "b"), ("lit", "c"), ("close", "b"), ("lit", "d"), ("close", "b"), ("lit", " e </b>")]
     yield "{{n2}} and {{ a b }} and <b>{{ name }}</b>", [("var", "n2"), ("lit", " and {{ a b }} and "), ("open", "b"), ("var", "name"), ("close", "b")]
 
 
@@ -551,6 +558,13 @@ def _flatten_value(v, out):
             _flatten_value(x, out)
     elif k == "Default":
         pass
+    elif k == "ForeignKey":
+        cell = v[2][0]
+        if cell[0] == "ctor" and cell[1] == "NotSet" and cell[2] and cell[2][0][0] == "ctor":
+            path = absint.fields_of(cell[2][0]).get("path")
+            out.append(("ref", ".".join(absint.fields_of(x).get("name", ("str", "?"))[1] for x in path[1]) if path and path[0] == "list" else absint.fmt(cell[2][0])))
+        else:
+            raise absint.Unknown("reference in an unexpected state: " + absint.fmt(cell)[:60])
     else:
         raise absint.Unknown("unexpected value kind " + k)
 
@@ -644,7 +658,7 @@ def r0_parse(ctx):
             have = "<%s>" % u
         if have != want and bad_parse is None:
             bad_parse = "`%s` parses to %s, the text says %s" % (text, have, want)
-        if have == want:
+        if have == want and not any(x[0] == "ref" for x in want):          # (reduce() is only defined once the references are resolved)
             ev = mk()
             rr = ev.run_fn(red, [got[2][0]])
             if isinstance(rr, str):
